@@ -19,18 +19,19 @@ RULE = ("cases = (sample, fraction, dtype, container) drawn by Hypothesis; non-t
 ASSUMPTIONS = ["integer inputs are below 2**53 so the float64 result array can hold them exactly",
                "NaN-free samples (ordering of NaN is undefined)"]
 
-DTYPES = ["float64", "float32", "int64", "int32"]
+DTYPES = ["float64", "float32", "int64", "int32", "uint8", "uint32", "int8"]
 
 
 @st.composite
 def column(draw, n, dtype):
     kind = draw(st.sampled_from(["ties", "smooth", "outlier", "huge", "grid"]))
-    if dtype.startswith("int"):
-        lim = 2**20 if dtype == "int32" else 2**40
+    if dtype.startswith("int") or dtype.startswith("uint"):
+        lim = {"int32": 2**20, "int64": 2**40, "uint8": 255, "uint32": 2**31, "int8": 60}[dtype]   # int8: differences stay in range
+        low = 0 if dtype.startswith("uint") else -lim
         if kind in ("ties", "grid"):
-            pool = draw(st.lists(st.integers(-50, 50), min_size=1, max_size=6))
+            pool = draw(st.lists(st.integers(max(low, -50), 50), min_size=1, max_size=6))
             return [draw(st.sampled_from(pool)) for _ in range(n)]
-        return [draw(st.integers(-lim, lim)) for _ in range(n)]
+        return [draw(st.integers(low, lim)) for _ in range(n)]
     if kind == "ties":
         pool = draw(st.lists(st.floats(-1e3, 1e3, allow_nan=False, width=32), min_size=1, max_size=6))
         return [draw(st.sampled_from(pool)) for _ in range(n)]
